@@ -267,6 +267,41 @@ def check_repeat_total(R, F, ex, res, tag, nn):
     R.floor(tag + " success paths", nok, 2)
 
 
+def explicit_panic_refuted(o):
+    """an explicit panic (assert!, debug_assert!) sits behind a branch; the interpreter prunes a branch only by cheap
+    reasoning. Here the last decision that led to the panic is re-examined with everything the check has: is the
+    opposite of that decision entailed by the facts before it (linear entailment with case split, then one product
+    step - the same means that discharge the implicit bounds checks)?"""
+    from poly import atom_pred_poly, is_bool_atom
+    from state import Facts
+    log = o.state.facts.log
+    idx = [i for i, e in enumerate(log) if e[0] == "assume"]
+    if not idx:
+        return False
+    last = log[idx[-1]]
+    p, val = last[1], last[2]
+    f0 = Facts.replay(log[:idx[-1]])
+    p = f0.simplify(p)
+    a = p.is_atom()
+    neg = False
+    if a is None:
+        a = (ONE - p).is_atom()
+        neg = True
+    if a is None or a[0] not in ("ge", "eq") or not is_bool_atom(a):
+        return False
+    truth = (1 - val) if neg else val          # the value the atom has on the panicking path
+    inner = f0.simplify(atom_pred_poly(a))
+
+    def ent(q):
+        return f0.entails_ge0_split(q, 3, 2, use_eq=True) is not None or f0.entails_ge0_prod(q)
+    if a[0] == "ge":
+        # the path claims inner >= 0 (truth 1) or inner < 0 (truth 0): refuted if the opposite is entailed
+        return ent(-inner - ONE) if truth == 1 else ent(inner)
+    if truth == 0:
+        return ent(inner) and ent(-inner)
+    return ent(inner - ONE) or ent(-inner - ONE)
+
+
 def run(R):
     R.trusted = ["rustc nightly MIR construction", "AIM interpreter (loops by havoc-to-fixpoint, never unrolled)",
                  "embedded-hal SpiDevice::write / OutputPin contracts", "finite iterators (chunks, caller streams) end",
@@ -354,6 +389,8 @@ def run(R):
                          "buffer length >= N, count and stream): the call would abort instead of delivering the bytes" % (mname, sp_.get("file"), sp_.get("line"), o.info.get("what") or o.info.get("kind"),
                                                                           o.info.get("op") or "", str(o.info.get("cond"))[:160]),
                          "%s:%s" % (sp_.get("file"), sp_.get("line")))
+                if o.info.get("kind") == "panic_call" and explicit_panic_refuted(o):
+                    continue        # (a debug_assert! of something the path facts entail: unreachable)
                 if o.info.get("kind") == "panic_call":
                     sp_ = o.info.get("span") or {}
                     R.ob("C06-no-explicit-panic", "%s|panic@%s" % (tag, o.info.get("callee")), False,
